@@ -12,7 +12,9 @@
 //       to the well-typed ones by the real TypeAuditor, evaluated both ways under three
 //       interpretations of the base set (X1 = {1,2,3}, {}, {5}).
 //
-// Build: see /verif/refs/README.md.    Run: t_ref_eval [-v] [-cap N] [-only harvest|gen|sets] [-skip2] [-fixed]
+// Build: see /verif/refs/README.md.
+// Run: t_ref_eval [-v] [-cap N] [-only harvest|gen|sets] [-skip2] [-binder TEXT] [-fixed] [-skip-overflow]
+//   (the full generator takes about half an hour under ASan; -skip2 / -binder select parts of it)
 //   -fixed: the binary is linked against a patched COPY of rslang (defects 1, 2 of the KNOWN list fixed),
 //           so the skips / expectations for those defects are switched off and any remaining
 //           disagreement is a different one.
@@ -176,6 +178,7 @@ struct Stats {
 };
 
 static bool g_verbose = false;
+static bool g_skipOverflow = false;  // -skip-overflow: library without the ViArithmetic overflow check (UB)
 static bool g_fixedLibrary = false;  // -fixed: linked against a copy of rslang with the known defects patched
 static double Now() { return static_cast<double>(clock()) / CLOCKS_PER_SEC; }
 static std::vector<std::string> g_disagreements;
@@ -281,6 +284,7 @@ static std::optional<Prepared> Prepare(const std::string& expr, Syntax syntax, c
 static RealResult Compare(const Prepared& prep, const Env& env, const ref::DataEnv& refEnv,
                           Stats& stats, ref::EvalResult* oracleOut = nullptr) {
   RealResult real{};
+  const bool typechecked = !prep.type.empty();
   const std::string& expr = prep.text;
   SetCurrent(expr);
   real.parsed = true;
@@ -302,9 +306,26 @@ static RealResult Compare(const Prepared& prep, const Env& env, const ref::DataE
     oracle = ref::Eval(ast, refEnv, SET_LIMIT, STEP_LIMIT);
   }
   if (oracleOut != nullptr) *oracleOut = oracle;
-  if ((oracle.failMask >> ref::F_OVERFLOW & 1U) != 0) {
-    // KNOWN real defect (would abort this process under UBSan): ASTInterpreter::ViArithmetic computes
-    // op1+op2 / op1-op2 / op1*op2 in int32 without overflow check (signed overflow = UB).
+  if (typechecked && (oracle.failMask >> ref::F_MALFORMED & 1U) != 0) {
+    // KNOWN real front-end defect: the auditor accepted an expression whose operands cannot be of one type
+    // at run time (only seen for recursions whose variable type never stabilises, see KnownDefect). The real
+    // interpreter then treats incomparable values as equal (std::set with INCOMPARABLE), typically looping
+    // to the iteration limit; nothing to compare.
+    ++stats.total;
+    const auto tag = KnownDefect(expr, real, oracle);
+    if (!tag.empty()) ++stats.known;
+    if (tag.empty()) {
+      ++stats.disagree;
+      printf("  DISAGREE %s   [oracle FAIL/MALFORMED on an expression accepted by the auditor]\n", expr.c_str());
+    } else if (++g_knownHits[tag] <= 5) {
+      printf("  KNOWN[ill-typed recursion accepted] %s\n", expr.c_str());
+    }
+    return real;
+  }
+  if (g_skipOverflow && (oracle.failMask >> ref::F_OVERFLOW & 1U) != 0) {
+    // KNOWN real defect of the ORIGINAL tree (aborts this process under UBSan): ASTInterpreter::ViArithmetic
+    // computed op1+op2 / op1-op2 / op1*op2 in int32 without overflow check (signed overflow = UB). The
+    // current tree reports ValueEID::typedOverflow instead, which is compared like any resource error.
     ++stats.total;
     ++stats.known;
     if (++g_knownHits["int32 overflow in ViArithmetic (UB)"] <= 5) printf("  KNOWN[arithmetic overflow] %s\n", expr.c_str());
@@ -1245,6 +1266,7 @@ int main(int argc, char** argv) {
     else if (!strcmp(argv[i], "-only") && i + 1 < argc) only = argv[++i];
     else if (!strcmp(argv[i], "-skip2")) gen::g_skipDepth2 = true;
     else if (!strcmp(argv[i], "-fixed")) g_fixedLibrary = true;
+    else if (!strcmp(argv[i], "-skip-overflow")) g_skipOverflow = true;
     else if (!strcmp(argv[i], "-binder") && i + 1 < argc) gen::g_binderFilter = argv[++i];
   }
   setvbuf(stdout, nullptr, _IOLBF, 0);
